@@ -9,6 +9,10 @@ package main
 //	un <ok|rpc|go> <rid|->                  unary call (rid: X-Request-ID header sent)
 //	px <n> <errat|-1> <cancelafter|-1>      producer stream, one batch per response
 //	ex <turns> <errat|-1>                   exchange stream
+//	dx <turns> <errat|-1>                   DYNAMIC exchange stream declaring its input schema at run time
+//	dp <n> <errat|-1>                       DYNAMIC producer stream
+//	conc <n> <s|p>                          n overlapping unary calls held at a barrier (s: one P, staggered; p: parallel)
+//	(http … [<-|c<entries>>]                optional 9th token: call-state cache size, c0 = off)
 //	fault <b<k>|w<i>z|w<i>h|w<i>l|->        from now on the connection under the server accepts only part of each
 //	                                        response body, then fails the write (see c38FaultWriter); - = healthy again
 
@@ -20,12 +24,17 @@ import (
 	"io"
 	"net/http"
 	"net/http/httptest"
+	"encoding/base64"
+	"runtime"
 	"strconv"
 	"strings"
+	"sync"
+	"time"
 
 	"github.com/Query-farm/vgi-rpc-go/vgirpc"
 	"github.com/apache/arrow-go/v18/arrow"
 	"github.com/apache/arrow-go/v18/arrow/array"
+	"github.com/apache/arrow-go/v18/arrow/ipc"
 	"github.com/apache/arrow-go/v18/arrow/memory"
 )
 
@@ -46,6 +55,15 @@ type C38Prod struct {
 // C38Exch is the exchange state.
 type C38Exch struct {
 	ErrAt, N int
+}
+
+// c38Hdr is the stream header of the dynamic methods (DynamicStreamWithHeader requires one).
+type c38Hdr struct {
+	Label string `arrow:"label"`
+}
+
+func (c38Hdr) ArrowSchema() *arrow.Schema {
+	return arrow.NewSchema([]arrow.Field{{Name: "label", Type: arrow.BinaryTypes.String}}, nil)
 }
 
 var c38Cur *c38HTTP
@@ -107,6 +125,7 @@ type c38Cap struct {
 
 type c38Tee struct {
 	inner *vgirpc.AccessLogHook
+	mu    sync.Mutex
 	caps  []c38Cap
 }
 
@@ -121,7 +140,9 @@ func (t *c38Tee) OnDispatchEnd(ctx context.Context, tok vgirpc.HookToken, info v
 		cp.stats = &s
 	}
 	cp.egressRID, cp.egressReq, cp.egressExt, cp.hasEgress = vgirpc.VerifC38Egress(ctx)
+	t.mu.Lock()
 	t.caps = append(t.caps, cp)
+	t.mu.Unlock()
 	t.inner.OnDispatchEnd(ctx, tok, info, stats, err)
 }
 
@@ -146,6 +167,8 @@ type c38HTTP struct {
 	sealed   map[int]string // label -> stream id of its first record
 	line     string
 	lines    int
+	arrived  chan struct{} // overlapping calls: a handler reached the barrier
+	release  chan struct{} // …and may return
 	fault    string // connection fault applied to every response until changed ("" = none)
 	cut      bool   // the last response was cut by the fault
 }
@@ -211,7 +234,7 @@ func (w *c38FaultWriter) Write(b []byte) (int, error) {
 }
 
 func c38NewHTTP(c *Case, l string, f []string) *c38HTTP {
-	if len(f) != 8 {
+	if len(f) != 8 && len(f) != 9 {
 		c.Out(l, "bad-op")
 		return nil
 	}
@@ -262,6 +285,27 @@ func c38NewHTTP(c *Case, l string, f []string) *c38HTTP {
 		pl := c38Plan(p.Plan)
 		return &vgirpc.StreamResult{OutputSchema: c38Schema, InputSchema: c38Schema, State: &C38Exch{ErrAt: pl["errat"]}}, nil
 	})
+	// dynamic streams: the state type and BOTH schemas are only known at run time
+	vgirpc.DynamicStreamWithHeader(srv, "dx", c38Hdr{}.ArrowSchema(), func(_ context.Context, _ *vgirpc.CallContext, p c38Params) (*vgirpc.StreamResult, error) {
+		pl := c38Plan(p.Plan)
+		return &vgirpc.StreamResult{OutputSchema: c38Schema, InputSchema: c38Schema, State: &C38Exch{ErrAt: pl["errat"]}, Header: c38Hdr{Label: "dx"}}, nil
+	})
+	vgirpc.DynamicStreamWithHeader(srv, "dp", c38Hdr{}.ArrowSchema(), func(_ context.Context, _ *vgirpc.CallContext, p c38Params) (*vgirpc.StreamResult, error) {
+		pl := c38Plan(p.Plan)
+		return &vgirpc.StreamResult{OutputSchema: c38Schema, State: &C38Prod{N: pl["n"], ErrAt: pl["errat"]}, Header: c38Hdr{Label: "dp"}}, nil
+	})
+	// a unary method whose handler waits at a barrier (overlapping calls)
+	vgirpc.Unary(srv, "hold", func(_ context.Context, _ *vgirpc.CallContext, p c38Params) (int64, error) {
+		cur := c38Cur
+		if cur != nil && cur.arrived != nil {
+			cur.arrived <- struct{}{}
+			select {
+			case <-cur.release:
+			case <-time.After(5 * time.Second):
+			}
+		}
+		return int64(len(p.Plan)), nil
+	})
 	hook := vgirpc.NewAccessLogHook(h.buf, h.ver)
 	hook.SetDebug(h.debug == "1")
 	h.tee = &c38Tee{inner: hook}
@@ -271,6 +315,12 @@ func c38NewHTTP(c *Case, l string, f []string) *c38HTTP {
 	h.hs.SetProducerBatchLimit(1)
 	if f[6] == "0" {
 		h.hs.SetCompressionLevel(0)
+	}
+	if len(f) == 9 && strings.HasPrefix(f[8], "c") {
+		// call-state cache size (0 = off: every continuation reopens the call token)
+		n, _ := strconv.Atoi(f[8][1:])
+		h.hs.SetCallStateCacheEntries(n)
+		c.Stat("http-cache-" + f[8])
 	}
 	if auth != nil {
 		a := auth
@@ -479,7 +529,7 @@ func (h *c38HTTP) compare(cp c38Cap, raw []byte, path string, isInit, isCont boo
 			c.Oracle("describes-call-mismatch", fmt.Sprintf("%s %s: handler failed=%v but status=%v", h.line, path, h.raised, m["status"]))
 		}
 		wantType := vgirpc.DispatchMethodStream
-		if wantMethod == "un" {
+		if wantMethod == "un" || wantMethod == "hold" {
 			wantType = vgirpc.DispatchMethodUnary
 		}
 		if m["method_type"] != wantType {
@@ -514,6 +564,51 @@ func (h *c38HTTP) call(l string, f []string) {
 			h.fault = f[1]
 		}
 		return
+	case "conc":
+		h.concurrent(l, f)
+		return
+	case "dx":
+		if len(f) != 3 {
+			c.Out(l, "bad-op")
+			return
+		}
+		turns, _ := strconv.Atoi(f[1])
+		errAt, _ := strconv.Atoi(f[2])
+		p := h.paramsBatch(fmt.Sprintf("errat=%d", errAt))
+		st, err := h.client.OpenExchange(ctx, "dx", p, vgirpc.ClientStreamSchema{Input: c38Schema, Output: c38Schema, Header: c38Hdr{}.ArrowSchema()})
+		p.Release()
+		if err == nil {
+			for i := 0; i < turns; i++ {
+				in := c38Batch(int64(i))
+				b, err := st.Exchange(ctx, in)
+				in.Release()
+				if err != nil {
+					break
+				}
+				b.Release()
+			}
+			st.Close()
+		}
+	case "dp":
+		if len(f) != 3 {
+			c.Out(l, "bad-op")
+			return
+		}
+		n, _ := strconv.Atoi(f[1])
+		errAt, _ := strconv.Atoi(f[2])
+		p := h.paramsBatch(fmt.Sprintf("n=%d;errat=%d", n, errAt))
+		st, err := h.client.OpenProducer(ctx, "dp", p, vgirpc.ClientStreamSchema{Output: c38Schema, Header: c38Hdr{}.ArrowSchema()})
+		p.Release()
+		if err == nil {
+			for i := 0; i < 50; i++ {
+				b, ok, err := st.Next(ctx)
+				if err != nil || !ok {
+					break
+				}
+				b.Release()
+			}
+			st.Close()
+		}
 	case "un":
 		if len(f) != 3 {
 			c.Out(l, "bad-op")
@@ -585,7 +680,7 @@ func (h *c38HTTP) call(l string, f []string) {
 			st.Close()
 		}
 	}
-	if len(h.buf.chunks) == before && f[0] != "fault" {
+	if len(h.buf.chunks) == before && f[0] != "fault" && f[0] != "conc" {
 		c.Oracle("call-without-record", fmt.Sprintf("%s produced no access-log record", l))
 	}
 }
@@ -600,13 +695,21 @@ func c38GenHTTP(g *Gen) {
 			auth = fmt.Sprintf("a:%s:%s:%d:%s", XS(Pick(r, []string{"alice", "svc-1", ""})), XS(Pick(r, []string{"bearer", "jwt"})), r.Intn(2), c38Claims(r, 0, 6))
 		}
 		red := Pick(r, []string{"default", "default", "default", "panic", "verbatim", "c:" + c38Claims(r, 0, 3)})
-		lines := []string{fmt.Sprintf("http %d %s %s %s %s %d %d", r.Intn(2), XS(Pick(r, []string{"", "2.0.1"})), auth, c38TraceTok(r), red,
-			Pick(r, []int{1, 1, 0}), Pick(r, []int{0, 0, 0, 1}))}
+		debug := r.Intn(2)
+		lines := []string{fmt.Sprintf("http %d %s %s %s %s %d %d %s", debug, XS(Pick(r, []string{"", "2.0.1"})), auth, c38TraceTok(r), red,
+			Pick(r, []int{1, 1, 0}), Pick(r, []int{0, 0, 0, 1}), Pick(r, []string{"-", "-", "c0", "c1", "c64"}))}
+		if debug == 1 && r.Chance(60) || r.Chance(10) {
+			lines = append(lines, fmt.Sprintf("conc %d %s", r.Range(8, 16), Pick(r, []string{"s", "s", "p"})))
+		}
 		for k, m := 0, r.Range(1, 5); k < m; k++ {
 			if r.Chance(30) {
 				lines = append(lines, "fault "+Pick(r, []string{"w0z", "w0h", "w0l", "w0l", "w1z", "w1h", "w1l", "w2h", "b0", "b1", "b17", "b135", "b136", "b200", "b295", "b296", "b1000", "-", "-"}))
 			}
-			switch r.Intn(3) {
+			switch r.Intn(5) {
+			case 3:
+				lines = append(lines, fmt.Sprintf("dx %d %d", r.Range(0, 6), Pick(r, []int{-1, -1, -1, 0, 2, 4})))
+			case 4:
+				lines = append(lines, fmt.Sprintf("dp %d %d", r.Range(0, 5), Pick(r, []int{-1, -1, -1, 0, 2})))
 			case 0:
 				lines = append(lines, fmt.Sprintf("un %s %s", Pick(r, []string{"ok", "ok", "rpc", "go"}), Pick(r, []string{"-", "-", "req-abc", "0123456789abcdef"})))
 			case 1:
@@ -618,4 +721,154 @@ func c38GenHTTP(g *Gen) {
 		}
 		g.Case(lines...)
 	}
+}
+
+
+// concurrent: n overlapping unary calls with distinct payloads. Each handler is held at a barrier
+// until every call has been dispatched (so every request payload has been captured before any record
+// is assembled), then all return. Mode "s" runs the schedule on a single P with staggered starts
+// (the next call starts once the previous handler waits), mode "p" starts all calls in parallel.
+// Every record — identified by the X-Request-ID the caller sent — must carry ITS OWN request payload.
+// This is a schedule search: it shows overlap bugs on the schedules it runs, it proves nothing.
+func (h *c38HTTP) concurrent(l string, f []string) {
+	c := h.c
+	if len(f) != 3 {
+		c.Out(l, "bad-op")
+		return
+	}
+	n, _ := strconv.Atoi(f[1])
+	if n < 1 || n > 32 {
+		c.Out(l, "bad-op")
+		return
+	}
+	single := f[2] == "s"
+	h.line = l
+	if single {
+		defer runtime.GOMAXPROCS(runtime.GOMAXPROCS(1))
+	}
+	h.arrived, h.release = make(chan struct{}, n), make(chan struct{})
+	redModel, redKind, _ := c38InstallRedactor(h.redTok, func() string { return "-" })
+	capsBefore, linesBefore := len(h.tee.caps), len(h.buf.chunks)
+	type result struct {
+		rec      *httptest.ResponseRecorder
+		declared int64
+	}
+	results := make([]result, n)
+	plans := make([]string, n)
+	var wg sync.WaitGroup
+	for i := 0; i < n; i++ {
+		// same length for half of the payloads (an overwritten buffer still parses), growing for the rest
+		plans[i] = fmt.Sprintf("payload-%02d", i)
+		if i%2 == 1 {
+			plans[i] += strings.Repeat("x", i)
+		}
+		p := h.paramsBatch(plans[i])
+		var body bytes.Buffer
+		if err := vgirpc.WriteRequest(&body, "hold", p, ""); err != nil {
+			panic(err)
+		}
+		p.Release()
+		req := httptest.NewRequest(http.MethodPost, "http://c38.test/hold", bytes.NewReader(body.Bytes()))
+		req.Header.Set("Content-Type", "application/vnd.apache.arrow.stream")
+		req.Header.Set("X-Request-ID", fmt.Sprintf("conc-%02d", i))
+		req.RemoteAddr = "192.0.2.7:4242"
+		results[i] = result{rec: httptest.NewRecorder(), declared: int64(body.Len())}
+		wg.Add(1)
+		go func(i int, req *http.Request) {
+			defer wg.Done()
+			h.hs.ServeHTTP(results[i].rec, req)
+		}(i, req)
+		if single {
+			select {
+			case <-h.arrived:
+			case <-time.After(3 * time.Second):
+			}
+		}
+	}
+	if !single {
+		for i := 0; i < n; i++ {
+			select {
+			case <-h.arrived:
+			case <-time.After(3 * time.Second):
+			}
+		}
+	}
+	close(h.release)
+	wg.Wait()
+	h.arrived, h.release = nil, nil
+	vgirpc.SetClaimRedactor(nil)
+	caps := append([]c38Cap(nil), h.tee.caps[capsBefore:]...)
+	lines := h.buf.chunks[linesBefore:]
+	if len(caps) != n || len(lines) != n {
+		c.Oracle("record-count-mismatch", fmt.Sprintf("%s: %d overlapping calls produced %d dispatch ends and %d records", l, n, len(caps), len(lines)))
+	}
+	byID := map[string][]byte{}
+	for _, ln := range lines {
+		if _, m, err := c38Canon(ln); err == nil {
+			if id, ok := m["request_id"].(string); ok {
+				byID[id] = ln
+			}
+		}
+	}
+	c.Stat("http-overlapping-calls")
+	for i := 0; i < n; i++ {
+		id := fmt.Sprintf("conc-%02d", i)
+		raw, ok := byID[id]
+		if !ok {
+			c.Oracle("call-without-record", fmt.Sprintf("%s: no record with request_id %s", l, id))
+			continue
+		}
+		var cp *c38Cap
+		for k := range caps {
+			if caps[k].egressRID == id {
+				cp = &caps[k]
+			}
+		}
+		if cp == nil {
+			c.Oracle("record-count-mismatch", fmt.Sprintf("%s: no dispatch end seen for %s", l, id))
+			continue
+		}
+		// the record's payload must be THIS call's request batch
+		_, m, _ := c38Canon(raw)
+		if rd, has := m["request_data"].(string); has {
+			got, why := c38PlanOfRequestData(rd)
+			if got != plans[i] {
+				c.Oracle("request-data-of-another-call", fmt.Sprintf("%s: the record of call %s (payload %q) carries request_data that decodes to %q %s", l, id, plans[i], got, why))
+			}
+		}
+		h.nextRID, h.raised, h.cut = id, false, false
+		h.compare(*cp, raw, "/hold", false, false, results[i].declared, int64(results[i].rec.Body.Len()), results[i].rec, redModel, redKind)
+	}
+	h.nextRID = ""
+}
+
+// c38PlanOfRequestData decodes a record's request_data (base64 of a self-contained IPC stream) and
+// returns the "plan" parameter of the request batch it holds.
+func c38PlanOfRequestData(rd string) (plan, why string) {
+	defer func() {
+		if rv := recover(); rv != nil {
+			plan, why = "", fmt.Sprintf("(not a readable IPC stream: %v)", rv)
+		}
+	}()
+	raw, err := base64.StdEncoding.DecodeString(rd)
+	if err != nil {
+		return "", "(not base64)"
+	}
+	rdr, err := ipc.NewReader(bytes.NewReader(raw))
+	if err != nil {
+		return "", fmt.Sprintf("(not a readable IPC stream: %v)", err)
+	}
+	defer rdr.Release()
+	if !rdr.Next() {
+		return "", "(IPC stream without a batch)"
+	}
+	rec := rdr.RecordBatch()
+	for i, fld := range rec.Schema().Fields() {
+		if fld.Name == "plan" {
+			if col, ok := rec.Column(i).(*array.String); ok && col.Len() == 1 {
+				return col.Value(0), ""
+			}
+		}
+	}
+	return "", "(no plan column)"
 }
